@@ -137,6 +137,7 @@ class Kernel(object):
         self.fired = []          # (rule index, gseq)
         self.sched = None        # scheduler object or None
         self.monitors = []       # callables(ev, phase)
+        self.op_hook = None
         self.owner_thread = None
         self.umask = 0o022
         self.record_reads = True
@@ -414,6 +415,8 @@ class Kernel(object):
             self.trace.append([self.gseq, p.pid, 'STEPLIMIT', None, None, None, None])
             raise StepLimit()
         self.trace.append(ev)
+        if self.op_hook is not None:
+            self.op_hook()          # simulated time passes with every system call (sim.proc: CLOCK.op_tick)
         # fault?
         if self.faults:
             err = self.match_fault(p, ev, mut)
